@@ -145,7 +145,7 @@ func runInstance(c *core.Ctx, name string, in *instance, ta *tally, elkSample *[
 	}
 	res, err := tlc.Run(tlc.Opts{
 		SpecDir: filepath.Join(core.VerifRoot, "spec", "Calendar"), Module: "MC_Calendar", Cfg: "Calendar.cfg",
-		Scratch: c.Scratch, Workers: c.Workers, Timeout: time.Duration(c.Pick(170, 1100)) * time.Second, HeapMB: 6000,
+		Scratch: c.Scratch, Workers: c.Workers, Timeout: time.Duration(c.Pick(400, 1300)) * time.Second, HeapMB: 6000,
 		Extra: map[string][]byte{"MC_Calendar.tla": in.module()},
 		OnGen: func(rec []byte) {
 			g := &Gen{}
